@@ -27,6 +27,8 @@ def prior_kwargs(cfg):
         kw["off_mu"] = (1.0, -2.0)
     # half of the configurations write their integral prior constants as Python ints (pytensor keeps them as small integer constants)
     kw["int_consts"] = (cfg["poly_trend"] + cfg["n_offsets"]) % 2 == 0
+    # the reference period of the default K prior: the default (1 yr) for one third of the configurations, other values elsewhere
+    kw["P0_days"] = {0: 365.25, 1: 200.0, 2: 1000.0}[cfg["n_offsets"]]
     return kw
 
 
@@ -60,6 +62,9 @@ def data_shapes(quick):
         out.append(dict(n=5, layout="short", err="hetero", unit="km/s", tref=False, raw="dirty", container="dict"))
         out.append(dict(n=3, layout="long", err="uniform", unit="m/s", tref=True, raw="dirty"))
         out.append(dict(n=5, layout="short", err="uniform", unit="km/s", tref=True, container="dict"))
+        # a data set obtained by slicing / masking a longer one
+        out.append(dict(n=3, layout="short", err="hetero", unit="km/s", tref=False, sliced="slice"))
+        out.append(dict(n=5, layout="long", err="uniform", unit="m/s", tref=False, sliced="mask"))
     else:
         for N in Ns:
             for layout in ("short", "long", "repeat"):
@@ -78,6 +83,8 @@ def data_shapes(quick):
                                                      (5, "short", "uniform", "km/s", True, "clean", "dict"), (8, "long", "hetero", "m/s", False, "dirty", "dict"),
                                                      (8, "repeat", "large", "km/s", True, "dirty", "list"), (2, "short", "tiny", "m/s", False, "dirty", "dict")):
             out.append(dict(n=N, layout=layout, err=err, unit=unit, tref=tref, raw=raw, container=cont))
+        for N, layout, err, unit, sl in ((3, "short", "hetero", "km/s", "slice"), (5, "long", "uniform", "m/s", "mask"), (8, "short", "uniform", "km/s", "slice"), (2, "repeat", "large", "m/s", "mask")):
+            out.append(dict(n=N, layout=layout, err=err, unit=unit, tref=False, sliced=sl))
     return out
 
 
@@ -117,7 +124,7 @@ def run_config(cfg, shapes, quick, seed, part, full_grid_shapes=()):
         if sh["n"] < cfg["n_offsets"] + 1:
             continue
         t_ref = pb.shape_tref(sh, cfg["n_offsets"])
-        data, dd = pb.make_data(n=sh["n"], raw=sh.get("raw", "clean"), container=sh.get("container", "list"), layout=sh["layout"], err=sh["err"], unit=sh["unit"], t_ref=t_ref, seed=seed,
+        data, dd = pb.make_data(n=sh["n"], raw=sh.get("raw", "clean"), container=sh.get("container", "list"), sliced=sh.get("sliced", False), layout=sh["layout"], err=sh["err"], unit=sh["unit"], t_ref=t_ref, seed=seed,
                                 n_surveys=cfg["n_offsets"] + 1, t_ref_scale=("utc" if sh["n"] % 2 else "tcb"), interleave=(not sh["tref"]), mixed_units=bool(sh["tref"]))
         problem = pb.ref_problem(dd, dec)
         sigbar = float(np.mean(dd["sig"]))
@@ -199,7 +206,7 @@ def run_case(case, part):
     cfg, sh = case["cfg"], case["shape"]
     prior, dec = pb.make_prior(cache=False, **prior_kwargs(cfg))
     t_ref = pb.shape_tref(sh, cfg["n_offsets"])
-    data, dd = pb.make_data(n=sh["n"], raw=sh.get("raw", "clean"), container=sh.get("container", "list"), layout=sh["layout"], err=sh["err"], unit=sh["unit"], t_ref=t_ref, seed=case.get("seed", 0),
+    data, dd = pb.make_data(n=sh["n"], raw=sh.get("raw", "clean"), container=sh.get("container", "list"), sliced=sh.get("sliced", False), layout=sh["layout"], err=sh["err"], unit=sh["unit"], t_ref=t_ref, seed=case.get("seed", 0),
                             n_surveys=cfg["n_offsets"] + 1, t_ref_scale=("utc" if sh["n"] % 2 else "tcb"), interleave=(not sh["tref"]), mixed_units=bool(sh["tref"]))
     theta = np.atleast_2d(np.array(case["theta"], dtype=float))
     impl = np.array(tj.TheJoker(prior).marginal_ln_likelihood(data, pb.make_samples(theta), in_memory=True))
